@@ -34,8 +34,8 @@ var (
 	smallK      = []string{"0", "1", "2", "3", "4"}
 	smallI      = []string{"0", "1", "2", "-1", "-2", "3"}
 	strLits     = []string{"abc", "Xy", "", "a b", "A", "10", "abc ", " x", "b", "ab"}
-	oddStrLits  = []string{"a+b", "x,y", "CASE", "a(b", "it)", "AND", "-", "a=b", "1 + 1", "NULL", "a.b", "END", "x > 1", "%", "_a"}
-	strVals     = []string{"abc", "Xy", "", "a b", "ABC", "abc ", "10", " x", "b", "ab", "a+b", "x,y", "a(b", "A"}
+	oddStrLits  = []string{"a+b", "x,y", "CASE", "a(b", "it)", "AND", "-", "a=b", "1 + 1", "NULL", "a.b", "END", "x > 1", "%", "_a", "a\"b", "\""}
+	strVals     = []string{"abc", "Xy", "", "a b", "ABC", "abc ", "10", " x", "b", "ab", "a+b", "x,y", "a(b", "A", "a\"b"}
 	cmpOps      = []string{"=", "==", "!=", "<", "<=", ">", ">="}
 )
 
@@ -375,7 +375,7 @@ func (s *g) arg(code, xk string, d int) *Node {
 	case "e":
 		return strLit(s.oneOf("enc", []string{"base64", "hex", "url"}))
 	case "l":
-		return strLit(s.oneOf("l", []string{"a", "b", "ab", "", "x", "0", "0.0", "0.00", " "}))
+		return strLit(s.oneOf("l", []string{"a", "b", "ab", "", "x", "0", "0.0", "0.00", " ", "\"", "a\"b", "x,y", "b)", "(a"}))
 	}
 	panic("unknown arg code " + code)
 }
